@@ -26,6 +26,8 @@ def run(chk):
              "not change which way a cross-product test goes)")
     chk.rule("IP.on-edge", "an intersection point clamped into its scanbeam gets its x recomputed on one of the two edges at the clamped y (a translated or "
              "mirrored input reaches this branch at other vertices; the result must not depend on it)")
+    chk.rule("POLY.topx", "TopX is the x of the line through bot and top at the given y (with dx = GetDx(bot, top) as SetDx stores it); every shortcut "
+             "return agrees with the general formula under its guard (identity of polynomial normal forms)")
     chk.rule("T.symmetry", "T(Positive, wc, wc2) == T(Negative, -wc, -wc2); NonZero invariant under negation; T independent of own path "
              "type for Intersection / Union / Xor")
     chk.rule("AXIS.mirror", "twin locals for the two axes read mirrored coordinates (transposing the input transposes the result)")
@@ -49,6 +51,7 @@ def run(chk):
         e9.rule_wide_kept(db, chk, cfg)
         e14.rule_cross(db, chk, cfg)
         e3.ip_on_edge_rule(db, chk, cfg)
+        e14.rule_topx(db, chk, cfg)
     chk.floor("T.symmetry", 1700 * len(cfgs))
     chk.floor("T.comparator", 1600 * len(cfgs))
     chk.exhaustive = True
